@@ -16,7 +16,7 @@ def ensure(names, tsan=False):
 
 
 def run_one(name, args, rc_params=None, exclude="", timeout=None, extra_env=None):
-    timeout = timeout or (280 if os.environ.get("VERIF_TIER_RUN", "quick") == "quick" else 2700)
+    timeout = timeout or (700 if os.environ.get("VERIF_TIER_RUN", "quick") == "quick" else 3000)
     wd = os.path.join(build.ROOT, ".work")
     fd, sp = tempfile.mkstemp(suffix=".stats", dir=wd)
     os.close(fd)
